@@ -2,6 +2,7 @@
    Statements only: every proof is `exact lemma` (lemmas in Res/PipelineTotalProofs.v, Res/PipelineWfProofs.v). *)
 From KV Require Import Res.Pipeline Res.PipelineProofs Res.PipelineTotalProofs Res.PipelineWfProofs.
 From KV Require Import Res.RenameProofs.
+From KV Require Glob.TotalityMore.
 
 (* the modelled build never diverges: for ALL kustomization trees, ill-formed documents included, whatever the
    go-yaml resolution oracle and the sort options (no function of the pipeline is fuelled) *)
@@ -38,33 +39,52 @@ Theorem PIPE_accumulate_no_panic :
 Proof. exact accumulate_no_panic. Qed.
 Print Assumptions PIPE_accumulate_no_panic.
 
-(* ... and the whole build of a well-formed tree panics in exactly one situation: the hash suffixes produce an id
-   collision, on which IgnoreLocal's Factory.FromResourceSlice does panic(err) (the known C12 finding
-   panic:...FromResourceSlice; PIPE_panic_hash_clash_witness below is a well-formed tree: PIPE_clash_tree_wellformed).
-   [no_hash_clash nonstr t]: the ids are pairwise distinct right after the hash step.
-   The other panic site of the model, the name-reference setter on an empty candidate name (FieldSetter with a nil
-   Value), is unreachable on well-formed trees: every candidate is the view of a resource with a non-empty name. *)
-Theorem PIPE_build_no_panic_partial :
-  forall nonstr o t, tree_wf t -> no_hash_clash nonstr t -> build nonstr o t <> Panic.
+(* ... and neither does the whole build: since the HashTransformer re-checks the ids after renaming (/repo 9a490e0;
+   [hash_check] in the model) the id collision a hash suffix can produce is an ERROR, and IgnoreLocal no longer panics
+   on a collision either (/repo 66fde0c).  The only panic sites left in the model are PrevIds (excluded by [tree_wf]:
+   comma-free names) and the name-reference setter on an empty candidate name (FieldSetter with a nil Value), which is
+   unreachable on well-formed trees: every candidate is the view of a resource with a non-empty name. *)
+Theorem PIPE_build_no_panic :
+  forall nonstr o t, tree_wf t -> build nonstr o t <> Panic.
 Proof. exact build_no_panic. Qed.
-Print Assumptions PIPE_build_no_panic_partial.
+Print Assumptions PIPE_build_no_panic.
 
-Theorem PIPE_build_panic_is_hash_clash :
-  forall nonstr o t, tree_wf t -> build nonstr o t = Panic -> ~ no_hash_clash nonstr t.
-Proof. exact build_panic_is_hash_clash. Qed.
-Print Assumptions PIPE_build_panic_is_hash_clash.
+(* IgnoreLocal has no panic route left, for ANY resource map (ill-formed documents, colliding ids): the kept
+   resources are Appended to a fresh ResMap and the id conflict is returned as an error (/repo 66fde0c; it was
+   panic(err) in Factory.FromResourceSlice) *)
+Theorem PIPE_ignore_local_no_panic : forall m, ignore_local m <> Panic.
+Proof. exact np_ignore_local_any. Qed.
+Print Assumptions PIPE_ignore_local_no_panic.
 
-Theorem PIPE_clash_tree_wellformed :
-  tree_wf clash_tree /\ build (fun _ => false) PSortNone clash_tree = Panic.
-Proof. exact (conj clash_tree_wf clash_tree_panics). Qed.
-Print Assumptions PIPE_clash_tree_wellformed.
+(* regression witness of the repaired defect: a well-formed tree whose hash suffix collides with a file resource *)
+Theorem PIPE_clash_tree_regression :
+  tree_wf clash_tree /\ build (fun _ => false) PSortNone clash_tree = Err.
+Proof. exact (conj clash_tree_wf clash_tree_err). Qed.
+Print Assumptions PIPE_clash_tree_regression.
 
-(* the model also HAS the FromResourceSlice panic of IgnoreLocal: a ConfigMap read from a file whose name equals
-   the hash-suffixed name of a generated one (confirmed on krusty.Run: corpus/PIPE/case_hashclash.json) *)
-Theorem PIPE_panic_hash_clash_witness :
+(* regression (was PIPE_panic_hash_clash_witness): a ConfigMap read from a file whose name equals the hash-suffixed
+   name of a generated one used to make IgnoreLocal's FromResourceSlice panic; it is an error now
+   (corpus/PIPE/case_hashclash.json: Err on both sides) *)
+Theorem PIPE_hash_clash_is_error :
   build (fun _ => false) PSortNone
         (PDir "t" (mkPDirs "" "" "" [] [] [] [mkPGen "a" "" "" ["k=v"] "" false [] [] false] [])
            [PFile [Map [("apiVersion", Scalar TStr SPlain "v1"); ("kind", Scalar TStr SPlain "ConfigMap");
-                        ("metadata", Map [("name", Scalar TStr SPlain "a-bdg947hgcc")])]]]) = Panic.
+                        ("metadata", Map [("name", Scalar TStr SPlain "a-bdg947hgcc")])]]]) = Err.
 Proof. exact build_panic_hash_clash. Qed.
-Print Assumptions PIPE_panic_hash_clash_witness.
+Print Assumptions PIPE_hash_clash_is_error.
+
+(* ---- the whole-build statement of C12 over the integrated model, joined with Props/C12.v --------------------
+   FULL STATEMENT of the property: forall t, safe (build ... t). PARTIAL: the never-diverges half holds for every
+   tree; the never-panics half holds on [tree_wf] trees - the complement of the PrevIds finding (a ',' in a name or
+   namespace) and of the empty-name trigger of the name-reference setter (C12_total_core_nameref_transform). The
+   model does not carry the other finding classes (non-mapping / empty-key annotations: Res/BuildAnnot.v and
+   C12_*_panic_iff; custom schema: C12_init_schema_custom_panic_iff; non-string data keys: search only). *)
+Theorem C12_build_total_partial :
+  forall nonstr o t,
+    build nonstr o t <> Diverge /\ (tree_wf t -> KV.Glob.TotalityMore.safe (build nonstr o t)).
+Proof.
+  exact (fun nonstr o t =>
+           conj (build_never_diverges nonstr o t)
+                (fun H => conj (build_no_panic nonstr o t H) (build_never_diverges nonstr o t))).
+Qed.
+Print Assumptions C12_build_total_partial.
